@@ -163,6 +163,9 @@ def tasks(tier, seed):
     names = sorted(TEMPLATES)
     for i, nm in enumerate(names):
         hows = REWRITES if not quick else [REWRITES[(seed + i + 3 * j) % len(REWRITES)] for j in range(3)] + ["colon+trail"]
+        if quick and nm.startswith(("hr_", "ru_")):
+            # shapes rewritten BEFORE whitespace is normalised: every rewriting of the inner whitespace, in every run
+            hows = hows + ["double", "nbsp", "mixed", "tab"]
         for how in sorted(set(hows)):
             add("ws:%s:%s" % (nm, how), "h_ws", {"name": nm, "how": how})
     blocks = nd_blocks()
